@@ -105,15 +105,17 @@ func checkC01(c *Ctx, r *Report) {
 				sites = append(sites, w.pos(cl.Pos()))
 				args := cl.Common().Args
 				op := args[len(args)-1]
-				call, ok := stripTrivial(op).(*ssa.Call)
-				if !ok || calleeName(call) != co {
-					viol = fmt.Sprintf("%s: the operation registered is not the value returned by createOperation(def, route)", w.pos(cl.Pos()))
-					continue
-				}
-				sites = append(sites, w.pos(call.Pos()))
-				// createOperation's arguments are the loop's def and route
-				if a := sliceOf(call.Call.Args[1]); !a.hasFieldNamed("Routes") {
-					viol = fmt.Sprintf("%s: createOperation is not applied to the current element of def.Routes", w.pos(call.Pos()))
+				for _, ov := range w.originValues(stripTrivial(op)) {
+					call, ok := stripTrivial(ov).(*ssa.Call)
+					if !ok || calleeName(call) != co {
+						viol = fmt.Sprintf("%s: the operation registered is not the value returned by createOperation(def, route)", w.pos(cl.Pos()))
+						continue
+					}
+					sites = append(sites, w.pos(call.Pos()))
+					// createOperation's arguments are the loop's def and route
+					if a := sliceOf(call.Call.Args[1]); !a.hasFieldNamed("Routes") {
+						viol = fmt.Sprintf("%s: createOperation is not applied to the current element of def.Routes", w.pos(call.Pos()))
+					}
 				}
 			}
 			r.add("C01.d", "fieldflow", gcs+":registered-op==createOperation(def,route)", e.Ver+": the registered operation is createOperation(def, route) of the current route", []string{gcs}, sites, viol)
